@@ -22,7 +22,7 @@ def endLast : Option UInt8 → List Item → Option UInt8
 def endMode : Bool → List Nat → List Item → Bool × List Nat
   | m, stk, [] => (m, stk)
   | _, stk, .t t :: r => endMode (if (stepStk t stk).2 then true else t.modeAfter) (stepStk t stk).1 r
-  | m, stk, _ :: r => endMode m stk r
+  | _, stk, _ :: r => endMode false stk r
 
 /-- `itemsOK` when the bytes `fol` follow the rendered items -/
 def itemsOKF (fol : Bytes) : Option UInt8 → Bool → List Nat → List Item → Bool
@@ -81,7 +81,6 @@ theorem endMode_append : ∀ (a b : List Item) (m : Bool) (stk : List Nat),
 
 /-- composition: the first part is followed by the rendering of the second -/
 theorem itemsOKF_append : ∀ (a b : List Item) (fol : Bytes) (last : Option UInt8) (m : Bool) (stk : List Nat),
-    (∀ x ∈ a, x = Item.sp ∨ x = Item.nl ∨ x = Item.soft → m = false) →
     itemsOKF fol last m stk (a ++ b) =
       (itemsOKF (render (endLast last a) b ++ fol) last m stk a &&
         itemsOKF fol (endLast last a) (endMode m stk a).1 (endMode m stk a).2 b) := by
@@ -89,12 +88,28 @@ theorem itemsOKF_append : ∀ (a b : List Item) (fol : Bytes) (last : Option UIn
   induction a with
   | nil => intros; simp [itemsOKF, endLast, endMode]
   | cons it r ih =>
-    intro b fol last m stk _
+    intro b fol last m stk
     cases it with
     | t t =>
-      simp only [List.cons_append, itemsOKF, endLast, endMode, render_append, List.append_assoc]
-      rw [ih b fol _ _ _ (fun _ _ _ => sorry)]
-      sorry
-    | _ => sorry
+      simp only [List.cons_append, itemsOKF, endLast, endMode, render_append, List.append_assoc, ih, Bool.and_assoc]
+    | sp => simp only [List.cons_append, itemsOKF, endLast, endMode, ih, Bool.and_assoc]
+    | nl => simp only [List.cons_append, itemsOKF, endLast, endMode, ih, Bool.and_assoc]
+    | soft =>
+      simp only [List.cons_append, itemsOKF, endLast, endMode]
+      cases last with
+      | none => simp only [ih, Bool.and_assoc]
+      | some ch => simp only []; split <;> simp only [ih, Bool.and_assoc]
+
+/-! ### bytes before which every scanner stops -/
+
+/-- `fol` starts with a byte that continues no token whose last byte is `lb`: white space, a
+    closing or opening bracket, `,` `;` `?`, a `:` not followed by `:`, or a `.` when `lb` is
+    neither `.` nor a digit -/
+def safeB (lb : Option UInt8) : Bytes → Bool
+  | [] => true
+  | ch :: r =>
+    ch == 32 || ch == 10 || ch == 41 || ch == 93 || ch == 125 || ch == 44 || ch == 59 || ch == 91 || ch == 63 ||
+      ch == 40 || (ch == 58 && !(r.head? == some 58)) ||
+      (ch == 46 && !(match lb with | some b => isDotOrDigit b | none => false))
 
 end Gojq.RefTerm
